@@ -682,6 +682,49 @@ impl Family for PushChk {
     }
 }
 
+/// PAWN7: a white pawn on its 7th rank (every file), both kings, one further white piece and one
+/// black piece (every pair of kinds from Q R B N) anywhere, both sides to move: promotions and
+/// under-promotions with something to lose or to win on the way.
+pub struct Pawn7;
+impl Family for Pawn7 {
+    fn name(&self) -> String {
+        "PAWN7".into()
+    }
+    fn len(&self) -> u64 {
+        8 * 64 * 64 * 64 * 64 * 16 * 2
+    }
+    fn decode(&self, mut i: u64) -> Option<Pos> {
+        let mut take = |n: u64| -> u64 {
+            let v = i % n;
+            i /= n;
+            v
+        };
+        let f = take(8) as i8;
+        let wk = take(64) as u8;
+        let bk = take(64) as u8;
+        let x = take(64) as u8;
+        let y = take(64) as u8;
+        let kinds = [QUEEN, ROOK, BISHOP, KNIGHT];
+        let kx = kinds[take(4) as usize];
+        let ky = kinds[take(4) as usize];
+        let stm = if take(2) == 0 { WHITE } else { BLACK };
+        let mut p = Pos::empty();
+        p.board[sq_at(f, 1)? as usize] = pc(WHITE, PAWN);
+        for (sq, piece) in [(wk, pc(WHITE, KING)), (bk, pc(BLACK, KING)), (x, pc(WHITE, kx)), (y, pc(BLACK, ky))] {
+            if p.board[sq as usize] != EMPTY {
+                return None;
+            }
+            p.board[sq as usize] = piece;
+        }
+        p.stm = stm;
+        if p.is_legal_position() {
+            Some(p)
+        } else {
+            None
+        }
+    }
+}
+
 /// MANY: nine or ten like white pieces (promotions make that legal): all eight squares of one
 /// row plus one or two more anywhere, both kings anywhere, optionally one black rook anywhere;
 /// both sides to move. For anything that assumes "never more than eight of a kind".
